@@ -134,6 +134,31 @@ class MiniEval:
             raise Unsupported('step budget exceeded')
         if isinstance(s, ast.Return):
             raise _Return(self.expr(s.value, env) if s.value is not None else None)
+        if isinstance(s, ast.Try) and type(self) is MiniEval or isinstance(s, ast.Try) and not hasattr(self, '_exc_matches'):
+            # try/except over builtin exception classes (subclasses with a class table have their own)
+            import builtins as _b
+            try:
+                self.block(s.body, env)
+            except Raised as r:
+                short = r.cls_name.split('(')[0].split('.')[-1]
+                bs = getattr(_b, short, None)
+                for h in s.handlers:
+                    names = [] if h.type is None else [ast.unparse(t).split('.')[-1] for t in (h.type.elts if isinstance(h.type, ast.Tuple) else [h.type])]
+                    hit = h.type is None or short in names or any(
+                        isinstance(bs, type) and isinstance(getattr(_b, n, None), type) and issubclass(bs, getattr(_b, n)) for n in names)
+                    if hit:
+                        if h.name:
+                            env[h.name] = r
+                        self.block(h.body, env)
+                        break
+                else:
+                    raise
+            else:
+                self.block(s.orelse, env)
+            finally:
+                if s.finalbody:
+                    self.block(s.finalbody, env)
+            return
         if isinstance(s, ast.Expr):
             if isinstance(s.value, ast.Constant):
                 return
@@ -558,7 +583,9 @@ class MiniEval:
         if isinstance(f, ast.Attribute):
             recv = self.expr(f.value, env)
             if isinstance(recv, Obj) and f.attr in recv._methods:
-                return self.call_function(recv._methods[f.attr], [recv, *args], kwargs)
+                mnode = recv._methods[f.attr]
+                static = any(isinstance(d, ast.Name) and d.id == 'staticmethod' for d in getattr(mnode, 'decorator_list', []))
+                return self.call_function(mnode, list(args) if static else [recv, *args], kwargs)
             if self.methods is not None:
                 r = self.methods(recv, f.attr, args, kwargs)
                 if r is not NotImplemented:
@@ -620,6 +647,23 @@ import collections.abc as _abc  # noqa: E402
 
 _ABC_TYPES = {n: getattr(_abc, n) for n in ('Collection', 'Container', 'Sized', 'Iterable', 'Iterator', 'Sequence', 'MutableSequence',
                                             'Mapping', 'MutableMapping', 'Set', 'MutableSet', 'Hashable', 'Callable')}
+
+
+def mro_methods(a, qual: str, skip=()) -> dict:
+    """Plain methods (no properties) of class QUAL and its repository bases, nearest definition first: for the `_methods` table
+    of an Obj standing for an instance, so that a helper method the code under interpretation calls on `self` is interpreted too."""
+    out: dict = {}
+    for c in a.ct.mro(qual):
+        ci = a.p.classes.get(c)
+        if ci is None:
+            continue
+        for n, m in ci.methods.items():
+            if n in out or n in skip:
+                continue
+            if any(d.split('.')[-1] in ('property', 'cached_property', 'contextmanager', 'setter') for d in m.decorators):
+                continue
+            out[n] = m.node
+    return out
 
 
 def module_constants(mod) -> dict:
